@@ -37,6 +37,23 @@ type Profile struct {
 	WS         int  // percent chance of whitespace at each gap
 	Spell      int
 	ScalarBias int // percent chance that a value below the root is a scalar (default 45)
+	// Wide: per-mille chance that a container gets many members/elements (9..300: past the sizes at which
+	// small-container fast paths, buffer growth and map-vs-list representations change) and that a string
+	// is long (past 64, 256, 4096 bytes).  Children of a wide container are mostly scalars.
+	Wide int
+}
+
+var wideSizes = []int{9, 16, 17, 32, 33, 64, 65, 128, 129, 257, 300}
+var longStringSizes = []int{65, 129, 257, 513, 1025, 4097, 9000}
+
+// WideKey is the i-th synthetic member name of a wide object (after the profile's own keys are used up).
+func WideKey(i int) string { return "w" + strconv.Itoa(i) }
+
+func (p *Profile) wide(r *rand.Rand) int {
+	if p.Wide > 0 && r.Intn(1000) < p.Wide {
+		return wideSizes[r.Intn(len(wideSizes))]
+	}
+	return 0
 }
 
 var HostileKeys = []string{"a", "b", "c", "d", "", "a/b", "m~n", "~", "/", "~1", "~0", "sensor_reading_01_celsius", "sensor_reading_02_celsius", "0", "1", "-1", "01", "x<y", "k&v", " ", "é", "😀", `q"r`, `b\s`, "\n", "-"}
@@ -50,11 +67,11 @@ var OddNumbers = []string{"0", "1", "-1", "-0", "1.0", "1e400", "1E+2", "1234567
 var PlainNumbers = []string{"0", "1", "-1", "2", "7", "100", "12345", "1.5", "-2.25", "9007199254740991"}
 
 func Hostile() *Profile {
-	return &Profile{Depth: 4, Width: 5, Keys: HostileKeys, Strings: HostileStrings, Numbers: OddNumbers, WS: 8}
+	return &Profile{Depth: 4, Width: 5, Keys: HostileKeys, Strings: HostileStrings, Numbers: OddNumbers, WS: 8, Wide: 12}
 }
 
 func Plain() *Profile {
-	return &Profile{Depth: 4, Width: 5, Keys: PlainKeys, Strings: PlainStrings, Numbers: PlainNumbers, Spell: SpellPlain}
+	return &Profile{Depth: 4, Width: 5, Keys: PlainKeys, Strings: PlainStrings, Numbers: PlainNumbers, Spell: SpellPlain, Wide: 12}
 }
 
 func (p *Profile) With(f func(*Profile)) *Profile {
@@ -141,6 +158,14 @@ func (p *Profile) str(r *rand.Rand) string {
 			s = p.Strings[r.Intn(len(p.Strings))]
 		}
 	}
+	if p.Wide > 0 && r.Intn(1000) < p.Wide/2 {
+		unit := s
+		if unit == "" {
+			unit = "ab"
+		}
+		n := longStringSizes[r.Intn(len(longStringSizes))]
+		s = strings.Repeat(unit, n/len(unit)+1)
+	}
 	return SpellString(r, s, p.Spell, p.Lone)
 }
 
@@ -180,6 +205,15 @@ func (p *Profile) Value(r *rand.Rand, d int) string {
 
 func (p *Profile) Array(r *rand.Rand, d int) string {
 	k := r.Intn(p.Width + 1)
+	if w := p.wide(r); w > 0 {
+		k = w
+		if d > 2 {
+			d = 2
+		}
+		q := *p
+		q.ScalarBias, q.Wide = 85, 0
+		p = &q
+	}
 	var sb strings.Builder
 	sb.WriteByte('[')
 	sb.WriteString(p.ws(r))
@@ -197,10 +231,25 @@ func (p *Profile) Array(r *rand.Rand, d int) string {
 
 func (p *Profile) Object(r *rand.Rand, d int) string {
 	k := r.Intn(p.Width + 1)
-	if k > len(p.Keys) {
-		k = len(p.Keys)
+	keys := p.Keys
+	if w := p.wide(r); w > 0 && !p.Dup {
+		k = w
+		if d > 2 {
+			d = 2
+		}
+		q := *p
+		q.ScalarBias, q.Wide = 85, 0
+		keys = append([]string{}, p.Keys...)
+		for i := 0; len(keys) < k; i++ {
+			keys = append(keys, WideKey(i))
+		}
+		q.Keys = keys
+		p = &q
 	}
-	perm := r.Perm(len(p.Keys))[:k]
+	if k > len(keys) {
+		k = len(keys)
+	}
+	perm := r.Perm(len(keys))[:k]
 	if p.Spell == SpellPlain {
 		q := perm[:0]
 		for _, i := range perm {
